@@ -278,7 +278,7 @@ func C06(r *simkit.Run) {
 			}
 			return false
 		}
-		switch t.Weighted("tamper", 4, 2, 2, 2, 2, 1, 1, 1, 4, 1, 1) {
+		switch t.Weighted("tamper", 4, 2, 2, 2, 2, 1, 1, 1, 4, 1, 1, 2) {
 		case 0: // flip / insert / delete one byte
 			n := pick()
 			b := append([]byte(nil), m[n]...)
@@ -437,6 +437,63 @@ func C06(r *simkit.Run) {
 			}
 			dk.write(migrate.HashFileName, []byte(strings.Join(lines, "")))
 			r.Probe("sum-file-edited")
+		case 11: // atlas.sum rewritten so that it is consistent with itself (header recomputed) but not with the directory
+			sb, ok := m[migrate.HashFileName]
+			if !ok {
+				continue
+			}
+			lines := strings.Split(strings.TrimSuffix(string(sb), "\n"), "\n")
+			if len(lines) < 3 || !strings.HasPrefix(lines[0], "h1:") {
+				continue
+			}
+			type ent struct{ name, sum string }
+			var es []ent
+			bad := false
+			for _, l := range lines[1:] {
+				k := strings.LastIndex(l, " h1:")
+				if k < 0 {
+					bad = true
+					break
+				}
+				es = append(es, ent{l[:k], l[k+4:]})
+			}
+			if bad || len(es) < 2 {
+				continue
+			}
+			// Never the last entry: its cumulative hash alone pins the whole byte stream.
+			i := t.Draw("entry", len(es)-1)
+			switch t.Draw("self-consistent-edit", 3) {
+			case 0:
+				c := []byte(es[i].sum)
+				if c[0] == 'Z' {
+					c[0] = 'Y'
+				} else {
+					c[0] = 'Z'
+				}
+				es[i].sum = string(c)
+				what = fmt.Sprintf("sum-rewrite-hash entry %d (header recomputed)", i)
+			case 1:
+				es[i].name = "0" + es[i].name
+				what = fmt.Sprintf("sum-rewrite-name entry %d (header recomputed)", i)
+			default:
+				if i+1 >= len(es)-1 || es[i] == es[i+1] {
+					continue
+				}
+				es[i], es[i+1] = es[i+1], es[i]
+				what = fmt.Sprintf("sum-rewrite-swap entries %d,%d (header recomputed)", i, i+1)
+			}
+			hh := sha256.New()
+			var out strings.Builder
+			for _, e := range es {
+				hh.Write([]byte(e.name))
+				hh.Write([]byte(e.sum))
+			}
+			out.WriteString("h1:" + base64.StdEncoding.EncodeToString(hh.Sum(nil)) + "\n")
+			for _, e := range es {
+				out.WriteString(e.name + " h1:" + e.sum + "\n")
+			}
+			dk.write(migrate.HashFileName, []byte(out.String()))
+			r.Probe("sum-file-rewritten-self-consistently")
 		case 9: // remove atlas.sum
 			if _, ok := m[migrate.HashFileName]; !ok {
 				continue
